@@ -119,8 +119,8 @@ class C16(Property):
     level_text = ("grade B, partial: `recovered_outputs_eq_partial` / `recovery_can_complete` / `recovered_run_outputs` proved on the abstract job-step model "
                   "for every failure and recovery sequence; that the engine's recovery is such a sequence is validated on real runs")
     level_note = "Lean kernel; the real recovery machinery (workflow reconstruction, inter-workflow ports, restore) is a runtime layer validated differentially"
-    quick_budget_s = 900
-    thorough_budget_s = 3000
+    quick_budget_s = 2400        # room for one confirmation re-run of a timed-out case (5x its bound), see recov.run_confirmed
+    thorough_budget_s = 6000
     min_nontrivial = 8
 
     def explore(self, ctx: Ctx) -> None:
@@ -170,7 +170,7 @@ class C16(Property):
                           "plan": [{"step": "/b", "tag": "0", "phase": "execute", "kind": "failstop", "count": 1, "lose": [["/b", "0"]],
                                     "lose_files": [["/a", "0", lost]]}]})
         results = {}
-        for case, status, r in recov.run_cases(cases, timeout=300, workers=6):
+        for case, status, r in recov.run_cases(cases, timeout=300, workers=6, ctx=ctx):
             results[case["name"]] = (case, status, r)
         lines, meta = [], []
         for name, (case, status, r) in results.items():
